@@ -248,7 +248,7 @@ def check(tier: str) -> int:
         # a failing job at every position over the batches of one size, plus batches without failures
         fail_at = [] if b % 4 == 3 else sorted({b % n} | ({rng.randrange(n)} if rng.random() < 0.3 else set()))
         plist.append({"seed": core.seed() * 9973 + b, "njobs": n, "nworkers": rng.randint(1, 4),
-                      "switch": 10 ** rng.uniform(-6, -2.3), "fail_at": fail_at, "timeout": 30.0,
+                      "switch": 10 ** rng.uniform(-6, -2.3), "fail_at": fail_at, "timeout": 90.0,
                       "perturb": [0, 0.05, 0.25][b % 3]})
     hist = []
     for chunk in pmap(batch_chunk, plist, chunk=3, tasks_per_child=4):
